@@ -299,10 +299,11 @@ Section Model.
     set_corun st2 (r_id r :: corun st2).
 
   Definition handle_changed (r : recipe) (st : state) : state :=
-    (* __srcBuildIds[key] = (hash, False); derived ids dropped; build/package steps forgotten.
-       _clearDownloadTried() assigns a different attribute: [tried] survives. *)
+    (* __srcBuildIds[key] = (hash, False); derived ids dropped (__buildDistBuildIds reset);
+       _clearWasRun(): build/package steps forgotten; _clearDownloadTried(): downloads are
+       tried again in the next pass *)
     let st1 := set_srcids st ((r_id r, (r_srcid r, false)) :: srcids st) in
-    ev ERestart (set_wasrun (set_bdids st1 []) []).
+    ev ERestart (set_tried (set_wasrun (set_bdids st1 []) []) []).
 
   Definition verify_src (r : recipe) (st : state) : res :=
     match lookupN (r_id r) (srcids st) with
@@ -364,12 +365,26 @@ Section Model.
     {| w_exists := w_exists w; w_content := w_content w; w_audit := w_audit w;
        s_vid := Some (r_vid r); s_inputs := PvNone; s_result := None |}.
 
+  (* prune: resetWorkspaceState(path, None) first (an interrupted prune must not leave a state that
+     describes the old result), then emptyDirectory + removePath(audit), then
+     resetWorkspaceState(path, packageDigest) *)
+  Definition invalidated_pws (w : pws) : pws :=
+    {| w_exists := w_exists w; w_content := w_content w; w_audit := w_audit w;
+       s_vid := None; s_inputs := PvNone; s_result := None |}.
+
+  Definition emptied_pws (w : pws) : pws :=
+    {| w_exists := true; w_content := []; w_audit := None;
+       s_vid := s_vid w; s_inputs := s_inputs w; s_result := s_result w |}.
+
   Definition prepare (r : recipe) (st : state) : state :=
     let w := getws (r_id r) st in
     let changed := w_exists w && negb (eqb_option N.eqb (s_vid w) (Some (r_vid r))) in
     if changed then
-      let w1 := {| w_exists := true; w_content := []; w_audit := w_audit w;
-                   s_vid := s_vid w; s_inputs := s_inputs w; s_result := s_result w |} in
+      (* PRUNE (recipe changed): state invalidated first, directory emptied (the audit trail next to
+         it stays), state reset to the new variant *)
+      let w0 := invalidated_pws w in
+      let w1 := {| w_exists := true; w_content := []; w_audit := w_audit w0;
+                   s_vid := s_vid w0; s_inputs := s_inputs w0; s_result := s_result w0 |} in
       putws (r_id r) (reset_pws r w1) (ev (EPrune (r_id r) PrRecipe) st)
     else if w_exists w then st
     else putws (r_id r) (reset_pws r w) st.
@@ -398,9 +413,8 @@ Section Model.
     {| w_exists := true; w_content := w_content w; w_audit := w_audit w;
        s_vid := s_vid w; s_inputs := s_inputs w; s_result := s_result w |}.
 
-  Definition pruned_pws (r : recipe) (w : pws) : pws :=   (* emptyDirectory, removePath(audit), resetWorkspaceState *)
-    {| w_exists := true; w_content := []; w_audit := None;
-       s_vid := Some (r_vid r); s_inputs := PvNone; s_result := None |}.
+  Definition pruned_pws (r : recipe) (w : pws) : pws :=
+    reset_pws r (emptied_pws (invalidated_pws w)).
 
   Definition extracted_pws (a : artifact) (w : pws) : pws :=   (* archive._extract *)
     {| w_exists := true; w_content := a_content a; w_audit := a_audit a;
